@@ -920,11 +920,12 @@ impl Entry {
     /// ```
     pub fn remove(&mut self) {
         let mut removed_comma = false;
+        // first item of the field: no entry and no substitution variable in front of it
         let is_first = !self
             .0
             .siblings(Direction::Prev)
             .skip(1)
-            .any(|n| n.kind() == ENTRY);
+            .any(|n| n.kind() == ENTRY || n.kind() == SUBSTVAR);
         while let Some(n) = self.0.next_sibling_or_token() {
             if n.kind() == WHITESPACE || n.kind() == NEWLINE {
                 n.detach();
